@@ -18,7 +18,7 @@ beyond them.
 import itertools
 import math
 
-from ..interp import Interp, World, Obj, Sym, PyVec, ThrowEx, ElemRef, NOT_HANDLED, OutOfRange
+from ..interp import SeqView, out_param, Interp, World, Obj, Sym, PyVec, ThrowEx, ElemRef, NOT_HANDLED, OutOfRange
 from ..sir import AnalysisBroken, walk
 from .. import model
 from .routers import Table
@@ -79,15 +79,16 @@ class PipeWorld(World):
             return it.rv(it.eval(args[0], frame)) in self.base
         if nm == "neighbors" and "grid" in cls:
             i = it.rv(it.eval(args[0], frame))
-            return PyVec([Obj("fastscapelib::neighbor", {"idx": j, "distance": 1.0, "status": 0})
-                          for j in self.adj[i]])
+            return out_param(it, frame, args, 1,
+                             PyVec([Obj("fastscapelib::neighbor", {"idx": j, "distance": 1.0, "status": 0})
+                                    for j in self.adj[i]]))
         if nm in ("nodes_status", "nodes_status_impl") and "grid" in cls:
             # the grid's own node statuses are independent of the graph's base levels: all core here
             if args:
                 return 0
             return PyVec([0] * len(self.adj))
         if nm == "neighbors_indices" and "grid" in cls:
-            return PyVec(list(self.adj[it.rv(it.eval(args[0], frame))]))
+            return out_param(it, frame, args, 1, PyVec(list(self.adj[it.rv(it.eval(args[0], frame))])))
         if nm == "get_basin_graph":
             this = it.rv(frame.this)
             want = this.fields["m_op_ptr"].fields["m_basin_method"]
@@ -115,8 +116,10 @@ class PipeWorld(World):
         obj = call.get("obj")
         if bn == "xt::adapt":
             v = it.rv(it.eval(args[0], frame))
-            shp = it.rv(it.eval(args[1], frame))
-            m = shp[0] if isinstance(shp, list) else shp
+            shp = it.rv(it.eval(args[1], frame)) if len(args) > 1 and "layout_type" not in fn.type(args[1].get("t")) else None
+            m = shp[0] if isinstance(shp, list) and shp else shp
+            if not isinstance(m, int) or isinstance(m, bool):
+                return PyVec(list(v))       # adapt(container): the whole container
             return PyVec(list(v)[:m])
         if bn == "xt::flatten":
             return it.eval(args[0], frame)
@@ -142,7 +145,7 @@ class PipeWorld(World):
                     if not isinstance(i, int) or i < 0 or i >= len(o):
                         raise OutOfRange("interp: index %r out of range (size %d) at %s" % (i, len(o), fn.loc(call)))
                     return ElemRef(o, i)
-                if name == "operator=":
+                if name == "operator=" and not isinstance(o, SeqView):
                     v = it.rv(it.eval(args[0], frame))
                     o[:] = list(v)
                     return oref
